@@ -24,6 +24,8 @@ EXTRA = {"C05": dict(mode="fault", trace=["C05_FailedMergeKeeps"]),
          "C12": dict(mode="crash", trace=["C12_AfterCrash"]),
          # properties about what the store reads / keeps / does to its files, judged on the runs with ONE failed call too
          "C01f": dict(mode="fault", trace=["C01_UnderFaults"]), "C02f": dict(mode="fault", trace=["C02_UnderFaults"]),
+         # C05 on runs with a failed call that contain a merge: the reads of the running process and of the restart
+         "C05f": dict(mode="fault", trace=["C01_UnderFaults", "C02_UnderFaults"]),
          "C12f": dict(mode="fault", trace=["C12_AfterCrash"]), "C13f": dict(mode="fault", trace=["C13_AfterFault"]),
          "C13": dict(mode="crash", trace=["C13_AfterCrash"]), "C13p": dict(mode="power", trace=["C13_AfterCrash"]),
          "C14f": dict(mode="fault", trace=["C14_FsDiscipline"])}
